@@ -142,20 +142,54 @@ class Capacity(object):
         self.accounting = Accounting(self)
 
     def _extract_send(self):
+        """the fragmentation decision of ConnectionBase.send, anchored on the construction of the FragmentSender: the
+        conditions under which it executes (CFG, leaf tests with polarity) contain one comparison of len(payload) with a
+        bound, however the branch is spelled (if/else, guard clause with early return, mirrored or complemented comparison)"""
+        from engine.cfg import cfg_of
         fi = self.send
+        cfg = cfg_of(fi)
         self.frag_test = None
-        for n in walk_own(fi.node):
-            if isinstance(n, ast.If) and any(isinstance(c, ast.Call) and norm(c.func) == "FragmentSender" for b in n.body for c in ast.walk(b)):
-                t = n.test
-                if isinstance(t, ast.Compare) and len(t.ops) == 1 and norm(t.left) == "len(%s)" % fi.params[1]:
-                    if isinstance(t.ops[0], ast.Gt):
-                        self.frag_test = (t.comparators[0], 0, n)
-                    elif isinstance(t.ops[0], ast.GtE):
-                        self.frag_test = (t.comparators[0], -1, n)
-                if self.frag_test is None:
+        flip = {ast.Lt: ast.Gt, ast.LtE: ast.GtE, ast.Gt: ast.Lt, ast.GtE: ast.LtE}
+        compl = {ast.Lt: ast.GtE, ast.LtE: ast.Gt, ast.Gt: ast.LtE, ast.GtE: ast.Lt}
+        ln = "len(%s)" % fi.params[1]
+        ctors = [c for c in walk_own(fi.node) if isinstance(c, ast.Call) and norm(c.func) == "FragmentSender"]
+        for c in ctors:
+            node = cfg.node_of(c)
+            for (t, pol) in cfg.conditions_of(node.id, loop_exits=False):
+                if not (isinstance(t, ast.Compare) and len(t.ops) == 1 and ln in (norm(t.left), norm(t.comparators[0]))):
+                    continue
+                op = type(t.ops[0])
+                if op not in flip:
                     raise Undecided("capacity model: fragmentation test has an unmodelled shape: %s" % norm(t))
+                l, r = t.left, t.comparators[0]
+                if norm(r) == ln:
+                    l, r, op = r, l, flip[op]
+                if not pol:
+                    op = compl[op]
+                if op is ast.Gt:
+                    found = (r, 0, t, pol)
+                elif op is ast.GtE:
+                    found = (r, -1, t, pol)
+                else:
+                    raise Undecided("capacity model: the FragmentSender is built for payloads below a bound: %s" % norm(t))
+                if self.frag_test is not None:
+                    raise Undecided("capacity model: two length tests govern the fragmentation branch")
+                self.frag_test = found
         if self.frag_test is None:
             raise AnchorMissing("capacity model: fragmentation branch in ConnectionBase.send")
+
+    def send_calls(self, fragmented):
+        """the _send_type calls of send() that execute on the fragmented (True) / unfragmented (False) side of the length test"""
+        from engine.cfg import cfg_of
+        cfg = cfg_of(self.send)
+        t, pol = self.frag_test[2], self.frag_test[3]
+        out = []
+        for c in walk_own(self.send.node):
+            if isinstance(c, ast.Call) and isinstance(c.func, ast.Attribute) and c.func.attr == "_send_type":
+                conds = {(id(x), p_) for (x, p_) in cfg.conditions_of(cfg.node_of(c).id, loop_exits=False)}
+                if (id(t), pol if fragmented else not pol) in conds:
+                    out.append(c)
+        return out
 
     def _extract_build(self):
         fi = self.build
@@ -614,12 +648,22 @@ class Accounting(object):
             raise Undecided("accounting model: `size` is not computed before the guard")
         upd = {}
         env2 = env
+        from engine.cfg import cfg_of
+        from .common import sym_expr
+        cfg = cfg_of(self.fi)
+
+        def value_of(st):
+            # the update may read the payload length through a temporary bound earlier in the iteration
+            at = cfg.node_of(st)
+            if at is None:
+                return st.value
+            return sym_expr(self.fi, st.value, at, allow_calls=("len", "Packet.overhead"), keep=tuple(self.vars) + (g["msg"], "msgs"))
         for st in g["if"].body:
             if isinstance(st, ast.Assign) and isinstance(st.targets[0], ast.Name) and st.targets[0].id in self.vars:
-                upd[st.targets[0].id] = self.lin(st.value, env2, case, g, ov)
+                upd[st.targets[0].id] = self.lin(value_of(st), env2, case, g, ov)
             elif isinstance(st, ast.AugAssign) and isinstance(st.target, ast.Name) and st.target.id in self.vars and isinstance(st.op, (ast.Add, ast.Sub)):
                 cur = upd.get(st.target.id, {"A:" + st.target.id: 1})
-                upd[st.target.id] = self._add(cur, self.lin(st.value, env2, case, g, ov), 1 if isinstance(st.op, ast.Add) else -1)
+                upd[st.target.id] = self._add(cur, self.lin(value_of(st), env2, case, g, ov), 1 if isinstance(st.op, ast.Add) else -1)
             elif _assigned_names(st):
                 raise Undecided("accounting model: unmodelled update %s" % norm(st)[:60])
         return env["size"], upd
